@@ -970,7 +970,7 @@ class DynGraph(nx.Graph):
         G.add_nodes_from(self)
         for it in self.interactions_iter():
             for t in it[2]['t']:
-                G.add_interaction(it[0], it[1], t=t[0], e=t[1])
+                G.add_interaction(it[0], it[1], t=t[0], e=t[1] + 1)
 
         G.graph = deepcopy(self.graph)
         G._node = deepcopy(self._node)
